@@ -599,6 +599,14 @@ def _install(T):
             return a.dtype != "complex"
         return not isinstance(a, Cx)
 
+    @reg("numpy.isreal", doc="isreal(x) for a scalar: the imaginary part is zero (a VALUE test, unlike isrealobj)")
+    def np_isreal(I, a):
+        if isinstance(a, (list, tuple, Arr, Arr2)):
+            raise Unsupported("numpy.isreal of an array")
+        if isinstance(a, Cx):
+            return V.s_cmp("==", a.im, 0)
+        return True
+
     @reg("numpy.issubdtype")
     def np_issubdtype(I, dt, kind):
         return dtype_name(dt) == dtype_name(kind)
@@ -621,6 +629,12 @@ def _install(T):
         best, bi = items[0], 0
         for i, v in enumerate(items[1:], 1):
             c = V.s_cmp("<", v, best)
+            if hasattr(c, "default") and isinstance(bi, int):
+                # degree domain: the comparison has been type-checked (mixed offsets are a degree error); the index stays a
+                # concrete integer on the main path
+                if c.default:
+                    bi, best = i, v
+                continue
             bi = V.s_ite(c, i, bi)
             best = V.s_ite(c, v, best)
         return bi
